@@ -203,7 +203,8 @@ class Ctx:
         ev = {"property_id": self.prop, "tier": self.tier, "seed": self.seed, "level": self.level,
               "coverage": cov, "assumptions": self.assumptions, "wall_s": round(time.time() - self.t0, 2),
               "violations": len(self.violations)}
-        d = os.path.join(HOME, "evidence")
+        # X.. ids are extension modules outside the given property list: their evidence is kept apart
+        d = os.path.join(HOME, "evidence_extra" if self.prop.startswith("X") else "evidence")
         os.makedirs(d, exist_ok=True)
         tmp = os.path.join(d, ".%s.json.tmp" % self.prop)
         with open(tmp, "w") as f:
